@@ -8,7 +8,7 @@ RULE = ("for each base scenario with fault-free length T the objective is made t
         "every exception type in {RuntimeError, ValueError, ZeroDivisionError, MemoryError, KeyboardInterrupt, SystemExit, GeneratorExit, private BaseException}; "
         "Solve must return, report exactly k-1 trials with the best of the k-1 logged values, and the search information must pass the C06 audit without the "
         "failed point. Two further exception types (rotating over 18, incl. IndexError/KeyError/StopIteration/RecursionError and user subclasses) are injected at every k; a fifth of the "
-        "faults are persistent (every later call fails too); long base runs (500..3000 trials) get faults at sampled k including the last. Faults are also injected after pre-batched iterations. Non-trivial: every faulted run; distinct = (scenario, k, exception type).")
+        "faults are persistent (every later call fails too); long base runs (500..3000 trials) get faults at sampled k including the last. Faults are also injected after pre-batched iterations, and in SEQUENCES: 2-3 one-shot failures at random indices, Solve called again after each, count / best / record audited after every Solve. Non-trivial: every faulted run; distinct = (scenario, k, exception type).")
 ASSUMPTIONS = ["refineSolution=False (with refinement 'reflects exactly the k-1 completed trials' is not well defined)",
                "the reported accuracy after a fault is not checked (the statement lists count, point and value only)"]
 CHUNK = 1
@@ -147,6 +147,47 @@ def run_case(c):
                         if len(viol) < 6:
                             viol.append({"mech": "failed-point-recorded", "k": k, "exc": name, "point": fy.tolist()})
                         break
+    # ---- fault SEQUENCES: the objective fails (once each) at several evaluation indices; after every failure the user calls Solve again
+    # on the same Solver.  After EVERY Solve the result must reflect exactly the trials completed so far and the record must hold them only.
+    if not c.get("long") and T >= 8:
+        for q in range(6):
+            ks = sorted({int(v) for v in rng.integers(2, T + 1, int(rng.integers(2, 4)))})
+            names = [list(EXC)[int(rng.integers(len(EXC)))] for _ in ks]
+            fm = {k: EXC[n] for k, n in zip(ks, names)}
+            s = dict(scn, pattern=[["solve"]] * (len(ks) + 1))
+            prob, _ = record.make_problem(s, cap=scn["iters"] + 20, fault=fm)
+            marks = []
+
+            def after_step(n, step, prob=prob, marks=marks):
+                done_now = [e for e in prob.log if e["ph"] == "g" and e["exc"] is None and e["v"] is not None]
+                sol = prob.solver.GetResults()
+                marks.append((len(done_now), sol.numberOfGlobalTrials, record.snap_solution(sol), list(done_now)))
+            try:
+                t = record.run_solver(s, listener=False, problem=prob, after_step=after_step)
+            except BaseException as e:
+                if len(viol) < 6:
+                    viol.append({"mech": "solve-raised", "fault_sequence": ks, "exc": names, "escaped": type(e).__name__})
+                continue
+            obs["fault_sequences"] = obs.get("fault_sequences", 0) + 1
+            obs["faults_in_sequences"] = obs.get("faults_in_sequences", 0) + len([e for e in t.log if e["exc"] is not None])
+            if t.fp_exhausted or (record.FP_GUARD in t.stdout and record.partition_degenerate(t.solver)):
+                continue
+            for n, (ndone, reported, snap, done_now) in enumerate(marks):
+                if reported != ndone:
+                    if len(viol) < 6:
+                        viol.append({"mech": "trial-count-after-fault", "fault_sequence": ks, "exc": names, "after_solve": n + 1, "reported": reported, "completed": ndone})
+                    break
+                om = moments.OptimumMonitor(prob)
+                om.check(snap, "after-solve-%d-of-a-fault-sequence" % (n + 1), completed=done_now)
+                for v in om.viol:
+                    if len(viol) < 6:
+                        viol.append(dict(v, fault_sequence=ks, exc=names))
+            sm = moments.SearchInfoMonitor(prob, t.solver, scn["N"], scn["lower"], scn["upper"], scn["m"])
+            sm.check("after-fault-sequence")
+            for v in sm.viol:
+                if len(viol) < 6:
+                    viol.append(dict(v, fault_sequence=ks, exc=names))
+            keys.append("%d|seq|%s" % (c["i"], ks))
     return {"violations": viol, "obs": obs, "nontrivial": True, "keys": keys,
             "sample": dict(scenario.short(scn), T=T, fault_positions="every k in 2..%d" % T, exception_types=list(EXC))}
 
@@ -160,6 +201,8 @@ def finalize(obs, tier, stats):
             return "exception type %s never injected" % n, {}
     if len(obs.get("extra_types", [])) < len(EXTRA):
         return "extended exception types not all injected: %s" % obs.get("extra_types"), {}
+    if obs.get("faults_in_sequences", 0) < 100:
+        return "too few faults injected in sequences (%s)" % obs.get("faults_in_sequences"), {}
     if not obs.get("long_base_scenarios") or obs.get("max_k_long", 0) < 400:
         return "no fault injected late in a long run (max k %s)" % obs.get("max_k_long"), {}
     return None, {"fault_space": "every k in 2..T x %d exception types (+2 rotating of %d further types) per base scenario; long runs: sampled k" % (len(EXC), len(EXTRA))}
